@@ -160,6 +160,22 @@ let handle = function
       (reverse_ite_cases (mk fuel) (nat_of_int 4000) (expr_of e))
   | L [A "chop"; e; b] -> res_sexp (fun l -> L (List.map sexp_of_expr l)) (chop (mk fuel) (expr_of e) (z_a b))
   | L [A "get_bytes"; e; i; n] -> res_sexp sexp_of_expr (get_bytes (mk fuel) (expr_of e) (z_a i) (z_a n))
+  | L (A "bal" :: A what :: rest) ->
+    let cop_of = function "__eq__" -> CEq | "__ne__" -> CNe | "ULT" -> CULT | "ULE" -> CULE | "UGT" -> CUGT | "UGE" -> CUGE
+      | "SLT" -> CSLT | "SLE" -> CSLE | "SGT" -> CSGT | "SGE" -> CSGE | s -> failwith ("cop " ^ s) in
+    let cop_s = function CEq -> "__eq__" | CNe -> "__ne__" | CULT -> "ULT" | CULE -> "ULE" | CUGT -> "UGT" | CUGE -> "UGE"
+      | CSLT -> "SLT" | CSLE -> "SLE" | CSGT -> "SGT" | CSGE -> "SGE" in
+    let bs b = A (if b then "1" else "0") in
+    (match what, rest with
+     | "simple", [A op; A side; size; k; lmin; lmax] ->
+       (match simple_bounds (cop_of op) (side = "1") (z_a size) (z_a k) (z_a lmin) (z_a lmax) with
+        | Some ((sat, lo), hi) -> L [A "some"; bs sat; a_z lo; a_z hi] | None -> L [A "none"])
+     | "in_bound", [n; mn; mx; x] -> bs (in_bound (z_a n) (z_a mn) (z_a mx) (z_a x))
+     | "nonstrict", [A op; size; c] -> let (o, c') = nonstrict (cop_of op) (z_a size) (z_a c) in L [A (cop_s o); a_z c']
+     | "zeroext", [A op; z] -> A (cop_s (zeroext_rule (cop_of op) (z_a z)))
+     | "reverse", [A op] -> (match reverse_op (cop_of op) with Some o -> A (cop_s o) | None -> A "none")
+     | "cmp", [A op; n; x; y] -> bs (cmp (cop_of op) (z_a n) (z_a x) (z_a y))
+     | _ -> failwith "bal")
   | L [A (("vsa_convert" | "vsa_aeval") as which); L ann; L tab; L joins; e] ->
     let av = function
       | L [A "si"; w; s; l; u; A b] -> ASI (z_a w, z_a s, z_a l, z_a u, b = "1")
